@@ -123,11 +123,47 @@ theorem hap_obj (names : List Bytes) (kvs : List (Bytes × JV)) (h : JV.hasArray
   simp only [JV.hasArrayPayload, Bool.or_eq_false_iff] at h
   exact h.2
 
+/-! ## the admissible (schema, value) pairs: an invariant closed under the positions both deserializers visit -/
+
+/-- positionwise (the i-th schema with the i-th element) -/
+def TupR (R : Schema → JV → Prop) : List Schema → List JV → Prop
+  | s :: ss, x :: xs => R s x ∧ TupR R ss xs
+  | _, _ => True
+
+/-- the payload of a variant, as the text side reads it -/
+def RShape (R : Schema → JV → Prop) : VariantShape → JV → Prop
+  | .unit, _ => True
+  | .newtype s, x => R s x
+  | .tuple ss, x => R (.tuple ss) x
+  | .struct_ fs, x => R (.struct_ fs false) x
+
+/-- `R` is closed under the sub-positions the induction visits, and excludes a struct variant written as an array -/
+structure Closed (R : Schema → JV → Prop) : Prop where
+  option : ∀ s v, R (.option s) v → v ≠ .null → R s v
+  newtype : ∀ s v, R (.newtype s) v → R s v
+  seq : ∀ s xs, R (.seq s) (.arr xs) → ∀ x ∈ xs, R s x
+  tuple : ∀ ss xs, R (.tuple ss) (.arr xs) → TupR R ss xs
+  map : ∀ k s kvs, R (.map k s) (.obj kvs) → ∀ kv ∈ kvs, R s kv.2
+  structArr : ∀ fs d xs, R (.struct_ fs d) (.arr xs) → TupR R (fs.map (·.2)) xs
+  structObj : ∀ fs d kvs, R (.struct_ fs d) (.obj kvs) → ∀ kv ∈ kvs, ∀ i nm s,
+    FromValue.nameIndex (fieldNames fs) kv.1 = some i → fs[i]? = some (nm, s) → R s kv.2
+  enumPayload : ∀ vs k x kvs, R (.enum_ vs) (.obj ((k, x) :: kvs)) → ∀ sh, (k, sh) ∈ vs → RShape R sh x
+  enumExcl : ∀ vs k x, R (.enum_ vs) (.obj [(k, x)]) → ∀ fs, (k, VariantShape.struct_ fs) ∈ vs → ∀ xs, x ≠ .arr xs
+
+variable (ext : Spec.Program.Ext)
+
+theorem tupAgree_of_tupR (R : Schema → JV → Prop) (de : Schema → Bytes → Nat → TOut) (fv : Schema → JV → FromValue.R) :
+    ∀ (ss : List Schema) (xs : List JV), (∀ s ∈ ss, ∀ x ∈ xs, R s x → Agree1 (de s) (fv s x) (T ext x)) → TupR R ss xs →
+      TupAgree ext de fv ss xs
+  | [], _, _, _ => trivial
+  | _ :: _, [], _, _ => trivial
+  | s :: ss, x :: xs, h, hr => ⟨h s (by simp) x (by simp) hr.1,
+      tupAgree_of_tupR R de fv ss xs (fun s' hs' x' hx' => h s' (by simp [hs']) x' (by simp [hx'])) hr.2⟩
+
 /-! ## the two payload interpretations coincide outside the exclusions -/
 
-theorem shapeDe_eq_payloadFV (cfg : FromValue.Cfg) (e : FromValue.Ext) (names : List Bytes) (k : Bytes) (sh : VariantShape) (x : JV)
-    (hfr : agreeFrag2Shape sh = true) (hsub : ∀ n ∈ VariantShape.svn k sh, n ∈ names)
-    (hap : JV.hasArrayPayload names (.obj [(k, x)]) = false) :
+theorem shapeDe_eq_payloadFV (cfg : FromValue.Cfg) (e : FromValue.Ext) (sh : VariantShape) (x : JV)
+    (hfr : agreeFrag2Shape sh = true) (hex : ∀ fs, sh = .struct_ fs → ∀ xs, x ≠ .arr xs) :
     FromValue.shapeDe cfg e sh (some x) = payloadFV cfg e sh x := by
   cases sh with
   | unit => cases x <;> simp [FromValue.shapeDe, payloadFV, FromValue.fromValue]
@@ -144,18 +180,12 @@ theorem shapeDe_eq_payloadFV (cfg : FromValue.Cfg) (e : FromValue.Ext) (names : 
     | _ => simp [FromValue.shapeDe, payloadFV, FromValue.fromValue]
   | struct_ fs =>
     cases x with
-    | arr xs =>
-      exfalso
-      have hk : k ∈ names := hsub k (by simp [VariantShape.svn])
-      simp only [JV.hasArrayPayload, Bool.or_eq_false_iff] at hap
-      have := hap.1
-      simp at this
-      exact this hk
+    | arr xs => exact absurd rfl (hex fs rfl xs)
     | _ => simp [FromValue.shapeDe, payloadFV, FromValue.fromValue]
 
 /-! ## the main induction -/
 
-variable (ext : Spec.Program.Ext) (hext : Spec.Program.ExtOK ext)
+variable (hext : Spec.Program.ExtOK ext)
 include hext
 
 theorem keyAgree_frag {env : Env} (hflt : env.flt = false) (k : KeyKind) (hk : keyFrag k = true) :
@@ -167,20 +197,20 @@ theorem keyAgree_frag {env : Env} (hflt : env.flt = false) (k : KeyKind) (hk : k
   | unitEnum names => exact keyAgree_unitEnum hflt names
   | int w => simp [keyFrag] at hk
 
-/-- **the text leg on printed values**: for every schema of the fragment, every float-free value representable without
-    `arbitrary_precision`, within the depth budget and without a struct variant written as an array, the typed
-    deserializer on the text `to_string` writes for the value (followed by a separator or nothing) returns exactly what
-    `from_value` returns — and fails when it fails -/
-theorem agree_all {env : Env} (hflt : env.flt = false) (cfg' : FromValue.Cfg) (hap : cfg'.ap = false) (ext' : FromValue.Ext)
-    (names : List Bytes) :
-    ∀ (f : Nat) (s : Schema), Schema.size s ≤ f → agreeFrag2 s = true → (∀ n ∈ s.structVariantNames, n ∈ names) →
-      ∀ (t : Nat) (v : JV), VOK v → DepthOK env t v → JV.hasArrayPayload names v = false →
+/-- **the text leg on printed values**, for an invariant `R` on (schema, value) pairs closed under the positions visited:
+    for every schema of the fragment and every float-free value representable without `arbitrary_precision`, within the
+    depth budget and admissible, the typed deserializer on the text `to_string` writes for the value (followed by a
+    separator or nothing) returns exactly what `from_value` returns — and fails when it fails -/
+theorem agree_gen {env : Env} (hflt : env.flt = false) (cfg' : FromValue.Cfg) (hap : cfg'.ap = false) (ext' : FromValue.Ext)
+    (R : Schema → JV → Prop) (hR : Closed R) :
+    ∀ (f : Nat) (s : Schema), Schema.size s ≤ f → agreeFrag2 s = true →
+      ∀ (t : Nat) (v : JV), VOK v → DepthOK env t v → R s v →
       Agree1 (deTyped env f t s) (FromValue.fromValue cfg' ext' s v) (T ext v) := by
   intro f
   induction f with
   | zero => intro s hs; have := size_pos s; omega
   | succ f ih =>
-    intro s hs hfr hsub t v hv hd hnap
+    intro s hs hfr t v hv hd hr
     cases s with
     | bool => rw [deTyped_bool]; exact agree_bool ext hext hflt cfg' hap ext' v hv
     | int w => rw [deTyped_int]; exact agree_int ext hext hflt cfg' hap ext' w v hv
@@ -200,32 +230,30 @@ theorem agree_all {env : Env} (hflt : env.flt = false) (cfg' : FromValue.Cfg) (h
       rfl
     | newtype s' =>
       rw [deTyped_newtype]
-      have := ih s' (by simp only [Schema.size] at hs; omega) (by simpa [agreeFrag2] using hfr)
-        (by simpa [Schema.structVariantNames] using hsub) t v hv hd hnap
+      have := ih s' (by simp only [Schema.size] at hs; omega) (by simpa [agreeFrag2] using hfr) t v hv hd (hR.newtype s' v hr)
       simpa [FromValue.fromValue] using this
     | option s' =>
       exact agree_option ext hflt cfg' hap ext' s' f t v hv
-        (ih s' (by simp only [Schema.size] at hs; omega) (by simpa [agreeFrag2] using hfr)
-          (by simpa [Schema.structVariantNames] using hsub) t v hv hd hnap) (T_head ext hext v hv)
+        (fun hnn => ih s' (by simp only [Schema.size] at hs; omega) (by simpa [agreeFrag2] using hfr) t v hv hd (hR.option s' v hr hnn))
+        (T_head ext hext v hv)
     | seq s' =>
       refine agree_seq ext hext hflt cfg' hap ext' s' f t v hv hd fun xs hxs x hx => ?_
       subst hxs
-      exact ih s' (by simp only [Schema.size] at hs; omega) (by simpa [agreeFrag2] using hfr)
-        (by simpa [Schema.structVariantNames] using hsub) (t + 1) x (vok_elem xs x hx hv) (depthOK_elem t xs x hx hd)
-        (hap_elem names xs x hx (by simpa [JV.hasArrayPayload] using hnap))
+      exact ih s' (by simp only [Schema.size] at hs; omega) (by simpa [agreeFrag2] using hfr) (t + 1) x (vok_elem xs x hx hv)
+        (depthOK_elem t xs x hx hd) (hR.seq s' xs hr x hx)
     | tuple ss =>
-      refine agree_tuple ext hext hflt cfg' hap ext' ss f t v hv hd fun xs hxs s' hs' x hx => ?_
+      refine agree_tuple ext hext hflt cfg' hap ext' ss f t v hv hd fun xs hxs => ?_
       subst hxs
+      refine tupAgree_of_tupR ext R _ _ ss xs (fun s' hs' x hx hrx => ?_) (hR.tuple ss xs hr)
       have hsz := size_mem_list ss s' hs'
-      exact ih s' (by simp only [Schema.size] at hs; omega) (agreeFrag2_mem ss s' hs' (by simpa [agreeFrag2] using hfr))
-        (fun n hn => hsub n (by simp only [Schema.structVariantNames]; exact svn_mem_list ss s' hs' n hn)) (t + 1) x
-        (vok_elem xs x hx hv) (depthOK_elem t xs x hx hd) (hap_elem names xs x hx (by simpa [JV.hasArrayPayload] using hnap))
+      exact ih s' (by simp only [Schema.size] at hs; omega) (agreeFrag2_mem ss s' hs' (by simpa [agreeFrag2] using hfr)) (t + 1) x
+        (vok_elem xs x hx hv) (depthOK_elem t xs x hx hd) hrx
     | map k s' =>
       have hfr' : keyFrag k = true ∧ agreeFrag2 s' = true := by simpa [agreeFrag2] using hfr
       refine agree_map ext hext hflt cfg' hap ext' k (keyAgree_frag ext hext hflt k hfr'.1) s' f t v hv hd fun kvs hkvs kv hx => ?_
       subst hkvs
-      exact ih s' (by simp only [Schema.size] at hs; omega) hfr'.2 (by simpa [Schema.structVariantNames] using hsub) (t + 1) kv.2
-        (vok_member kvs kv hx hv).2 (depthOK_member t kvs kv hx hd) (hap_member names kvs kv hx (hap_obj names kvs hnap))
+      exact ih s' (by simp only [Schema.size] at hs; omega) hfr'.2 (t + 1) kv.2
+        (vok_member kvs kv hx hv).2 (depthOK_member t kvs kv hx hd) (hR.map k s' kvs hr kv hx)
     | struct_ fs deny =>
       have hfr' : agreeFrag2Fields fs = true := by simpa [agreeFrag2] using hfr
       have hsize : ∀ s' ∈ fs.map (·.2), Schema.size s' ≤ f := by
@@ -233,29 +261,28 @@ theorem agree_all {env : Env} (hflt : env.flt = false) (cfg' : FromValue.Cfg) (h
         obtain ⟨fld, hfld, rfl⟩ := List.mem_map.mp hs'
         have := size_mem_fields fs fld hfld
         simp only [Schema.size] at hs; omega
-      have hsub' : ∀ s' ∈ fs.map (·.2), ∀ n ∈ s'.structVariantNames, n ∈ names :=
-        fun s' hs' n hn => hsub n (by simp only [Schema.structVariantNames]; exact svn_mem_fields fs s' hs' n hn)
       refine agree_struct ext hext hflt cfg' hap ext' fs deny f t v hv hd ?_ ?_
-      · intro xs hxs s' hs' x hx
+      · intro xs hxs
         subst hxs
-        exact ih s' (hsize s' hs') (agreeFrag2_mem_fields fs s' hs' hfr') (hsub' s' hs') (t + 1) x (vok_elem xs x hx hv)
-          (depthOK_elem t xs x hx hd) (hap_elem names xs x hx (by simpa [JV.hasArrayPayload] using hnap))
-      · intro kvs hkvs s' hs' kv hx
+        refine tupAgree_of_tupR ext R _ _ _ xs (fun s' hs' x hx hrx => ?_) (hR.structArr fs deny xs hr)
+        exact ih s' (hsize s' hs') (agreeFrag2_mem_fields fs s' hs' hfr') (t + 1) x (vok_elem xs x hx hv)
+          (depthOK_elem t xs x hx hd) hrx
+      · intro kvs hkvs kv hx i nm s' hni hfi
         subst hkvs
-        exact ih s' (hsize s' hs') (agreeFrag2_mem_fields fs s' hs' hfr') (hsub' s' hs') (t + 1) kv.2 (vok_member kvs kv hx hv).2
-          (depthOK_member t kvs kv hx hd) (hap_member names kvs kv hx (hap_obj names kvs hnap))
+        have hs' : s' ∈ fs.map (·.2) := List.mem_map.mpr ⟨(nm, s'), List.mem_of_getElem? hfi, rfl⟩
+        exact ih s' (hsize s' hs') (agreeFrag2_mem_fields fs s' hs' hfr') (t + 1) kv.2 (vok_member kvs kv hx hv).2
+          (depthOK_member t kvs kv hx hd) (hR.structObj fs deny kvs hr kv hx i nm s' hni hfi)
     | enum_ vs =>
       have hfr' : agreeFrag2Variants vs = true := by simpa [agreeFrag2] using hfr
       refine agree_enum ext hext hflt cfg' hap ext' vs f t v hv hd ?_ ?_
-      · intro kvs hkvs nm sh hmem kv hx
+      · intro k x kvs hkvs sh hmem
         subst hkvs
-        have hshf := agreeFrag2_mem_variants vs nm sh hmem hfr'
-        have hshsz := size_mem_variants vs (nm, sh) hmem
-        have hsubsh : ∀ n ∈ VariantShape.svn nm sh, n ∈ names :=
-          fun n hn => hsub n (by simp only [Schema.structVariantNames]; exact svn_mem_variants vs nm sh hmem n hn)
-        have hvk := (vok_member kvs kv hx hv).2
-        have hdk := depthOK_member t kvs kv hx hd
-        have hnk := hap_member names kvs kv hx (hap_obj names kvs hnap)
+        have hshf := agreeFrag2_mem_variants vs k sh hmem hfr'
+        have hshsz := size_mem_variants vs (k, sh) hmem
+        have hrsh := hR.enumPayload vs k x kvs hr sh hmem
+        have hvk := (vok_member ((k, x) :: kvs) (k, x) (by simp) hv).2
+        have hdk := depthOK_member t ((k, x) :: kvs) (k, x) (by simp) hd
+        simp only at hvk hdk
         have hszs : ∀ s' ∈ shapeSchemas sh, Schema.size s' ≤ f := by
           intro s' hs'
           have := size_shape sh s' hs'
@@ -265,11 +292,10 @@ theorem agree_all {env : Env} (hflt : env.flt = false) (cfg' : FromValue.Cfg) (h
         cases sh with
         | unit =>
           simp only [dePayload, payloadFV]
-          exact agree_unit ext hext hflt cfg' hap ext' kv.2 hvk
+          exact agree_unit ext hext hflt cfg' hap ext' x hvk
         | newtype s' =>
           simp only [dePayload, payloadFV]
-          exact ih s' (hszs s' (by simp [shapeSchemas])) (by simpa [agreeFrag2Shape] using hshf)
-            (by simpa [VariantShape.svn] using hsubsh) (t + 1) kv.2 hvk hdk hnk
+          exact ih s' (hszs s' (by simp [shapeSchemas])) (by simpa [agreeFrag2Shape] using hshf) (t + 1) x hvk hdk hrsh
         | tuple ss =>
           have hfl : agreeFrag2List ss = true := by
             have : (!ss.isEmpty && agreeFrag2List ss) = true := by simpa [agreeFrag2Shape] using hshf
@@ -278,33 +304,96 @@ theorem agree_all {env : Env} (hflt : env.flt = false) (cfg' : FromValue.Cfg) (h
             rw [deTyped_tuple]; rfl
           rw [this]
           simp only [payloadFV]
-          refine agree_tuple ext hext hflt cfg' hap ext' ss f (t + 1) kv.2 hvk hdk fun xs hxs s' hs' x hx' => ?_
-          exact ih s' (hszs s' (by simpa [shapeSchemas] using hs')) (agreeFrag2_mem ss s' hs' hfl)
-            (fun n hn => hsubsh n (by simp only [VariantShape.svn]; exact svn_mem_list ss s' hs' n hn)) (t + 1 + 1) x
-            (vok_elem xs x hx' (hxs ▸ hvk)) (depthOK_elem (t + 1) xs x hx' (hxs ▸ hdk))
-            (hap_elem names xs x hx' (by have := hxs ▸ hnk; simpa [JV.hasArrayPayload] using this))
+          refine agree_tuple ext hext hflt cfg' hap ext' ss f (t + 1) x hvk hdk fun xs hxs => ?_
+          subst hxs
+          refine tupAgree_of_tupR ext R _ _ ss xs (fun s' hs' x' hx' hrx => ?_) (hR.tuple ss xs hrsh)
+          exact ih s' (hszs s' (by simpa [shapeSchemas] using hs')) (agreeFrag2_mem ss s' hs' hfl) (t + 1 + 1) x'
+            (vok_elem xs x' hx' hvk) (depthOK_elem (t + 1) xs x' hx' hdk) hrx
         | struct_ fs =>
           have hff : agreeFrag2Fields fs = true := by simpa [agreeFrag2Shape] using hshf
           have : dePayload env (t + 1) (deTyped env f) (.struct_ fs) = deTyped env (f + 1) (t + 1) (.struct_ fs false) := by
             rw [deTyped_struct]; rfl
           rw [this]
           simp only [payloadFV]
-          have hsubf : ∀ s' ∈ fs.map (·.2), ∀ n ∈ s'.structVariantNames, n ∈ names :=
-            fun s' hs' n hn => hsubsh n (by
-              simp only [VariantShape.svn, List.mem_cons]; exact .inr (svn_mem_fields fs s' hs' n hn))
-          refine agree_struct ext hext hflt cfg' hap ext' fs false f (t + 1) kv.2 hvk hdk ?_ ?_
-          · intro xs hxs s' hs' x hx'
-            exact ih s' (hszs s' (by simpa [shapeSchemas] using hs')) (agreeFrag2_mem_fields fs s' hs' hff) (hsubf s' hs') (t + 1 + 1) x
-              (vok_elem xs x hx' (hxs ▸ hvk)) (depthOK_elem (t + 1) xs x hx' (hxs ▸ hdk))
-              (hap_elem names xs x hx' (by have := hxs ▸ hnk; simpa [JV.hasArrayPayload] using this))
-          · intro kvs' hkvs' s' hs' kv' hx'
-            exact ih s' (hszs s' (by simpa [shapeSchemas] using hs')) (agreeFrag2_mem_fields fs s' hs' hff) (hsubf s' hs') (t + 1 + 1) kv'.2
-              (vok_member kvs' kv' hx' (hkvs' ▸ hvk)).2 (depthOK_member (t + 1) kvs' kv' hx' (hkvs' ▸ hdk))
-              (hap_member names kvs' kv' hx' (hap_obj names kvs' (hkvs' ▸ hnk)))
+          refine agree_struct ext hext hflt cfg' hap ext' fs false f (t + 1) x hvk hdk ?_ ?_
+          · intro xs hxs
+            subst hxs
+            refine tupAgree_of_tupR ext R _ _ _ xs (fun s' hs' x' hx' hrx => ?_) (hR.structArr fs false xs hrsh)
+            exact ih s' (hszs s' (by simpa [shapeSchemas] using hs')) (agreeFrag2_mem_fields fs s' hs' hff) (t + 1 + 1) x'
+              (vok_elem xs x' hx' hvk) (depthOK_elem (t + 1) xs x' hx' hdk) hrx
+          · intro kvs' hkvs' kv' hx' i nm s' hni hfi
+            subst hkvs'
+            have hs' : s' ∈ fs.map (·.2) := List.mem_map.mpr ⟨(nm, s'), List.mem_of_getElem? hfi, rfl⟩
+            exact ih s' (hszs s' (by simpa [shapeSchemas] using hs')) (agreeFrag2_mem_fields fs s' hs' hff) (t + 1 + 1) kv'.2
+              (vok_member kvs' kv' hx' hvk).2 (depthOK_member (t + 1) kvs' kv' hx' hdk)
+              (hR.structObj fs false kvs' hrsh kv' hx' i nm s' hni hfi)
       · intro k x hkx sh hmem
         subst hkx
-        exact shapeDe_eq_payloadFV cfg' ext' names k sh x (agreeFrag2_mem_variants vs k sh hmem hfr')
-          (fun n hn => hsub n (by simp only [Schema.structVariantNames]; exact svn_mem_variants vs k sh hmem n hn)) hnap
+        exact shapeDe_eq_payloadFV cfg' ext' sh x (agreeFrag2_mem_variants vs k sh hmem hfr')
+          (fun fs hfs xs => hR.enumExcl vs k x hr fs (hfs ▸ hmem) xs)
     | f64 | f32 | any => simp [agreeFrag2] at hfr
+
+/-! ## the instance of C16: no struct variant written as an array (`JV.hasArrayPayload` over the schema's struct-variant names) -/
+
+omit hext in
+theorem tupR_of_all (R : Schema → JV → Prop) : ∀ (ss : List Schema) (xs : List JV), (∀ s ∈ ss, ∀ x ∈ xs, R s x) → TupR R ss xs
+  | [], _, _ => trivial
+  | _ :: _, [], _ => trivial
+  | s :: ss, x :: xs, h => ⟨h s (by simp) x (by simp), tupR_of_all R ss xs fun s' hs' x' hx' => h s' (by simp [hs']) x' (by simp [hx'])⟩
+
+/-- C16's admissibility: the struct-variant names of the schema are among `names`, and the value has no single-key object
+    `{name: [...]}` for one of them -/
+def RC16 (names : List Bytes) (s : Schema) (v : JV) : Prop :=
+  (∀ n ∈ s.structVariantNames, n ∈ names) ∧ JV.hasArrayPayload names v = false
+
+omit hext in
+theorem closed_RC16 (names : List Bytes) : Closed (RC16 names) where
+  option := fun s v h _ => ⟨by simpa [Schema.structVariantNames] using h.1, h.2⟩
+  newtype := fun s v h => ⟨by simpa [Schema.structVariantNames] using h.1, h.2⟩
+  seq := fun s xs h x hx => ⟨by simpa [Schema.structVariantNames] using h.1,
+    hap_elem names xs x hx (by simpa [JV.hasArrayPayload] using h.2)⟩
+  tuple := fun ss xs h => tupR_of_all _ ss xs fun s hs x hx =>
+    ⟨fun n hn => h.1 n (by simp only [Schema.structVariantNames]; exact svn_mem_list ss s hs n hn),
+     hap_elem names xs x hx (by simpa [JV.hasArrayPayload] using h.2)⟩
+  map := fun k s kvs h kv hx => ⟨by simpa [Schema.structVariantNames] using h.1, hap_member names kvs kv hx (hap_obj names kvs h.2)⟩
+  structArr := fun fs d xs h => tupR_of_all _ _ xs fun s hs x hx =>
+    ⟨fun n hn => h.1 n (by simp only [Schema.structVariantNames]; exact svn_mem_fields fs s hs n hn),
+     hap_elem names xs x hx (by simpa [JV.hasArrayPayload] using h.2)⟩
+  structObj := fun fs d kvs h kv hx i nm s _ hfi =>
+    ⟨fun n hn => h.1 n (by
+        simp only [Schema.structVariantNames]
+        exact svn_mem_fields fs s (List.mem_map.mpr ⟨(nm, s), List.mem_of_getElem? hfi, rfl⟩) n hn),
+     hap_member names kvs kv hx (hap_obj names kvs h.2)⟩
+  enumPayload := fun vs k x kvs h sh hmem => by
+    have hsub : ∀ n ∈ VariantShape.svn k sh, n ∈ names :=
+      fun n hn => h.1 n (by simp only [Schema.structVariantNames]; exact svn_mem_variants vs k sh hmem n hn)
+    have hx : JV.hasArrayPayload names x = false := hap_member names ((k, x) :: kvs) (k, x) (by simp) (hap_obj names _ h.2)
+    cases sh with
+    | unit => trivial
+    | newtype s => exact ⟨by simpa [VariantShape.svn] using hsub, hx⟩
+    | tuple ss => exact ⟨by simpa [VariantShape.svn, Schema.structVariantNames] using hsub, hx⟩
+    | struct_ fs =>
+      exact ⟨fun n hn => hsub n (by
+        simp only [Schema.structVariantNames] at hn
+        simp only [VariantShape.svn, List.mem_cons]; exact .inr hn), hx⟩
+  enumExcl := fun vs k x h fs hmem xs hx => by
+    subst hx
+    have hk : k ∈ names := h.1 k (by
+      simp only [Schema.structVariantNames]
+      exact svn_mem_variants vs k (.struct_ fs) hmem k (by simp [VariantShape.svn]))
+    have := h.2
+    simp only [JV.hasArrayPayload, Bool.or_eq_false_iff] at this
+    have := this.1
+    simp at this
+    exact this hk
+
+/-- the text leg for C16's hypotheses -/
+theorem agree_all {env : Env} (hflt : env.flt = false) (cfg' : FromValue.Cfg) (hap : cfg'.ap = false) (ext' : FromValue.Ext)
+    (names : List Bytes) :
+    ∀ (f : Nat) (s : Schema), Schema.size s ≤ f → agreeFrag2 s = true → (∀ n ∈ s.structVariantNames, n ∈ names) →
+      ∀ (t : Nat) (v : JV), VOK v → DepthOK env t v → JV.hasArrayPayload names v = false →
+      Agree1 (deTyped env f t s) (FromValue.fromValue cfg' ext' s v) (T ext v) :=
+  fun f s hs hfr hsub t v hv hd hnap =>
+    agree_gen ext hext hflt cfg' hap ext' (RC16 names) (closed_RC16 names) f s hs hfr t v hv hd ⟨hsub, hnap⟩
 
 end SJ.Proofs.Typed
